@@ -17,6 +17,8 @@ var verifIndepQueries = []string{
 	`max_over_time(foo[2m])`,
 	`-foo`,
 	`foo > bar`,
+	`foo{a="x"} * on(a) foo`,
+	`foo{b="1"} - on(a) group_left foo{a="x"}`,
 }
 
 // VerifH11p: whole pipeline: the result does not depend on the number of shards
@@ -98,4 +100,51 @@ func VerifH20p() {
 		}
 	}
 	sym.Reached("C20/end")
+}
+
+var verifSharedSelectQueries = []string{
+	`foo{a="x"} * on(a) foo`,
+	`foo - on(a) group_left foo{a="x"}`,
+	`sum by (a) (foo{a="y"}) + on(a) foo`,
+}
+
+// VerifH11s: queries whose selectors share one pooled storage select (merged selects),
+// with two shards and storage callbacks as scheduling points, under every schedule with
+// bounded preemptions: the result equals the single-shard result.
+func VerifH11s() {
+	qs := verifSharedSelectQueries[sym.Choice("query", len(verifSharedSelectQueries))]
+	start := sym.Int64("start", 0, verifR)
+	data := []*stub.Series{
+		stub.NewSeries(stub.Labels("__name__", "foo", "a", "x", "b", "1"), []stub.Sample{{T: start, V: sym.Float64("v0")}}),
+		stub.NewSeries(stub.Labels("__name__", "foo", "a", "y", "b", "1"), []stub.Sample{{T: start, V: sym.Float64("v1")}}),
+		stub.NewSeries(stub.Labels("__name__", "foo", "a", "z", "b", "1"), []stub.Sample{{T: start, V: sym.Float64("v2")}}),
+	}
+	e := verifEngine(logicalplan.DefaultOptimizers, 300000)
+	sym.SetGOMAXPROCS(2)
+	base := verifExecInstant(e, &stub.Queryable{Ser: data}, qs, start)
+	sym.SetGOMAXPROCS(4)
+	other := verifExecInstant(e, &stub.Queryable{Ser: data}, qs, start)
+	if base.Err != nil {
+		sym.Observe("base.err", base.Err.Error())
+	}
+	if other.Err != nil {
+		sym.Observe("other.err", other.Err.Error())
+	}
+	sym.Assert("C11/shared-select/errors-agree", (base.Err == nil) == (other.Err == nil))
+	if base.Err == nil && other.Err == nil {
+		bv, _ := base.Value.(promql.Vector)
+		ov, _ := other.Value.(promql.Vector)
+		sym.Assert("C11/shared-select/count", len(bv) == len(ov))
+		for _, a := range ov {
+			found := false
+			for _, b := range bv {
+				if stub.SameLabels(a.Metric, b.Metric) {
+					found = true
+					sym.Assert("C11/shared-select/value", sym.EqF(a.V, b.V))
+				}
+			}
+			sym.Assert("C11/shared-select/series", found)
+		}
+	}
+	sym.Reached("C11/shared-select/end")
 }
